@@ -37,7 +37,7 @@ def run_driver(lines):
 
 
 def model_line(scen):
-    keys = ('id', 'env', 'op', 'ty', 'val', 'handlers', 'name', 'style', 'tys', 'args', 'kwargs', 'cls', 'decls', 'obj', 'set', 'set_only', 'rename', 'frozen', 'deep', 'a', 'b', 'akey', 'bkey', 'explicit_hash', 'eq_opt', 'order_opt', 'ops', 'maxsize', 'keys', 'is_path', 'how', 'mutate', 'explicit_eq')
+    keys = ('id', 'env', 'op', 'ty', 'val', 'handlers', 'name', 'style', 'tys', 'args', 'kwargs', 'cls', 'decls', 'obj', 'set', 'set_only', 'rename', 'frozen', 'deep', 'a', 'b', 'akey', 'bkey', 'explicit_hash', 'eq_opt', 'order_opt', 'ops', 'maxsize', 'keys', 'is_path', 'how', 'mutate', 'explicit_eq', 'shapes')
     return json.dumps({k: scen[k] for k in keys if k in scen}, ensure_ascii=False)
 
 
@@ -124,6 +124,10 @@ def run_scenarios(scens, keep_ctx=False, project_what=None, stats=None):
                 ctx, out = impl.run_process(sc)
                 sc['env'] = {}
                 prepared.append((sc, ctx, out))
+                continue
+            if sc['op'] == 'bcast':
+                sc['env'] = {}
+                prepared.append((sc, None, impl.run(sc, None)))
                 continue
             if sc['op'] in ('history', 'lru'):
                 out = impl.run_history(sc) if sc['op'] == 'history' else impl.run_lru(sc)
